@@ -161,13 +161,13 @@ _res = re.compile(r"=\s*\[([^\]]*)\]")
 
 
 def _eval_shard(args):
-    run_mod, idx, cases, workdir = args
+    run_mod, idx, texts, workdir = args
     name = f"cases_{idx}"
     path = os.path.join(workdir, name + ".v")
     with open(path, "w") as fh:
-        fh.write(f"From EN Require Import Lib.Bytes Lib.Sx {run_mod}.\nOpen Scope Z_scope.\n")
+        fh.write(f"From Coq Require Import String.\nFrom EN Require Import Lib.Bytes Lib.Sx {run_mod}.\nOpen Scope string_scope.\nOpen Scope Z_scope.\n")
         fh.write("Definition cases : list (sx * sx) := [\n")
-        fh.write(";\n".join(f"({sx.to_coq(i)}, {sx.to_coq(o)})" for i, o in cases))
+        fh.write(";\n".join(texts))
         fh.write("\n].\nEval vm_compute in (mismatches run cases).\n")
     cmd = ["timeout", "900", "coqc", "-Q", COQ, "EN", "-Q", workdir, "W", "-w", "-all", path]
     r = subprocess.run(cmd, cwd=workdir, stdout=subprocess.PIPE, stderr=subprocess.STDOUT, text=True)
@@ -181,17 +181,30 @@ def _eval_shard(args):
     return idx, mism, ""
 
 
-def eval_cases_vm(run_mod, cases, workdir, shard=400):
-    """cases: list of (input, expected_output) python sx values.  Returns (mismatch_indices, errors)."""
+def eval_cases_vm(run_mod, cases, workdir, shard=400, shard_bytes=200_000):
+    """cases: list of (input, expected_output) python sx values.  Returns (mismatch_indices, errors).
+    Shards are bounded both in number of cases and in text size (coqc needs ~2 GB per MB of case text)."""
     os.makedirs(workdir, exist_ok=True)
-    shards = [(run_mod, k, cases[i:i + shard], workdir) for k, i in enumerate(range(0, len(cases), shard))]
+    shards, cur, cur_bytes, start = [], [], 0, 0
+    bounds = []
+    for k, (i, o) in enumerate(cases):
+        t = f"({sx.to_coq(i)}, {sx.to_coq(o)})"
+        if cur and (len(cur) >= shard or cur_bytes + len(t) > shard_bytes):
+            shards.append((run_mod, len(shards), cur, workdir))
+            bounds.append(start)
+            cur, cur_bytes, start = [], 0, k
+        cur.append(t)
+        cur_bytes += len(t)
+    if cur:
+        shards.append((run_mod, len(shards), cur, workdir))
+        bounds.append(start)
     mism, errors = [], []
     with ThreadPoolExecutor(max_workers=JOBS) as ex:
         for idx, m, err in ex.map(_eval_shard, shards):
             if m is None:
                 errors.append((idx, err))
             else:
-                mism.extend(idx * shard + j for j in m)
+                mism.extend(bounds[idx] + j for j in m)
     return sorted(mism), errors
 
 
@@ -200,7 +213,7 @@ def eval_one_vm(run_mod, inp, workdir, tag="one"):
     os.makedirs(workdir, exist_ok=True)
     path = os.path.join(workdir, f"{tag}.v")
     with open(path, "w") as fh:
-        fh.write(f"From EN Require Import Lib.Bytes Lib.Sx {run_mod}.\nOpen Scope Z_scope.\n")
+        fh.write(f"From Coq Require Import String.\nFrom EN Require Import Lib.Bytes Lib.Sx {run_mod}.\nOpen Scope string_scope.\nOpen Scope Z_scope.\n")
         fh.write(f"Eval vm_compute in (run ({sx.to_coq(inp)})).\n")
     cmd = ["timeout", "300", "coqc", "-Q", COQ, "EN", "-w", "-all", path]
     r = subprocess.run(cmd, cwd=workdir, stdout=subprocess.PIPE, stderr=subprocess.STDOUT, text=True)
